@@ -31,6 +31,8 @@ CONSTANTS MODE,     \* "gen" | "file" | "steps"
 
 NOW   == 9                                     \* mtime of everything written by the sync (larger than all model times)
 DOCFN == "signac_job_document.json"
+BAKFN == DOCFN \o "~"      \* roll-back copy of create_backup; a STALE one is left behind by a sync that died inside the document sync
+OLDTXT == "{\"old\": 1}"    \* content of the stale roll-back copies of the generated universe (an older document)
 IgnoreNames == {"RCS", "CVS", "tags", ".git", ".hg", ".bzr", "_darcs", "__pycache__"}
 
 ---------------------------------------------------------------------------
@@ -39,7 +41,8 @@ IgnoreNames == {"RCS", "CVS", "tags", ".git", ".hg", ".bzr", "_darcs", "__pycach
    Dir      [f : name -> FileRec, d : name -> Dir]
    DV       [t, s, m]   t = "s": scalar with canonical JSON text s;  t = "m": mapping m : key -> DV
    Job      [sp, dir, doc, dex, dmt]   sp: state point file present; doc: DV mapping; dex/dmt: document file exists / its mtime
-   Project  [jobs : id -> Job, pdoc : DV, sps : id -> (key -> value token)]
+   Project  [jobs : id -> Job, pdoc : DV, pbak : BOOLEAN]   pbak: a stale signac_project_document.json~ exists (a stale job-level
+            roll-back copy is simply the file BAKFN in the job directory)
    Opts     [strategy, custom, docSync, keysel, recursive, exclude:[on,names], selection:[on,ids], checkSchema,
              deep, dryRun, parallel, entry, jid, order, nord, kord]                                             *)
 EmptyDir == [f |-> <<>>, d |-> <<>>]
@@ -73,9 +76,12 @@ Blocked(dir, p) == IF Len(p) = 1 THEN p[1] \in DOMAIN dir.d
 (* 1a. files, as the code: _sync_job_workspaces + _FileModifyProxy *)
 \* filecmp.cmp: shallow => equal (type, size, mtime) is "same"; otherwise by size then content.  deep => content.
 Same(a, b, deep) == IF deep THEN a.data = b.data ELSE (a.size = b.size /\ a.mtime = b.mtime) \/ a.data = b.data
-Excl(n, o) == o.exclude.on /\ n \in o.exclude.names          \* re.match on the NAME inside the current directory
+UserExcl(n, o) == o.exclude.on /\ n \in o.exclude.names     \* re.match on the NAME inside the current directory
+\* R-prefix (calibrated): sync_jobs always appends the state point and (unless COPY) the document file NAME to the patterns, and
+\* re.match is a prefix match - so a roll-back copy 'signac_job_document.json~' is excluded from the file walk too (not from a clone)
+Excl(n, o) == UserExcl(n, o) \/ (o.docSync # "copy" /\ n = BAKFN)
 Ign(n)     == DircmpIgnoreList /\ n \in IgnoreNames           \* DEVIATION D6
-TreeExcl(n, o) == ~CopytreeIgnoresExclude /\ Excl(n, o)       \* DEVIATION D5 (fixed: copytree(ignore=...) by name)
+TreeExcl(n, o) == ~CopytreeIgnoresExclude /\ UserExcl(n, o)       \* DEVIATION D5 (fixed: copytree(ignore=...) by name)
 CopyFile(a) == [a EXCEPT !.mtime = NOW]                        \* shutil.copy: content + mode, fresh mtime
 Verdict(sf, df, p, o) == CASE o.strategy = "always" -> TRUE
                            [] o.strategy = "never"  -> FALSE
@@ -143,8 +149,11 @@ ByKey(s, d, root, o, live) ==
       skipped |-> UNION {one(k).sk : k \in DOMAIN s},
       terr |-> \E k \in DOMAIN s : one(k).te]
 \* returns [doc, res, keys]; a raise restores the backup unless dry_run (then backup and restore are both gated off)
-DocMerge(sd, dd, o) ==
+\* stale: '<document>~' already exists.  create_doc_backup uses the file-level backup for a non-empty document with a file, and
+\* create_backup REFUSES (RuntimeError) when the roll-back copy already exists - before anything is touched, dry run or not.
+DocMerge(sd, dd, o, stale) ==
   IF sd = dd THEN [doc |-> dd, res |-> "ok", keys |-> {}]                            \* src.document != dst.document
+  ELSE IF stale /\ dd # EmptyDoc THEN [doc |-> dd, res |-> "RuntimeError", keys |-> {}]
   ELSE IF o.docSync = "update"
        THEN [doc |-> IF o.dryRun THEN dd ELSE Mp(Over(sd.m, dd.m)), res |-> "ok", keys |-> {}]
   ELSE LET r == ByKey(sd.m, dd.m, "", o, ~o.dryRun) IN
@@ -181,7 +190,7 @@ JobStep(sj, dj0, exists, o, deep) ==
                   doc |-> IF dj.dex /\ r.data = DocText(dj.doc, o.kord) THEN dj.doc ELSE sj.doc, dex |-> TRUE, dmt |-> r.mtime]
   IN IF w.res # "ok" THEN [job |-> jf, present |-> TRUE, res |-> w.res, fn |-> w.fn, keys |-> {}, cons |-> w.cons]
      ELSE IF o.docSync \in {"nosync", "copy"} THEN [job |-> jf, present |-> TRUE, res |-> "ok", fn |-> "", keys |-> {}, cons |-> w.cons]
-     ELSE LET m == DocMerge(sj.doc, dj.doc, o) IN
+     ELSE LET m == DocMerge(sj.doc, dj.doc, o, BAKFN \in DOMAIN w.dir.f) IN     \* files first: a copied BAKFN counts
           [job |-> [jf EXCEPT !.doc = m.doc, !.dex = (dj.dex \/ m.doc # EmptyDoc)], present |-> TRUE,
            res |-> m.res, fn |-> "", keys |-> m.keys, cons |-> w.cons]
 
@@ -216,7 +225,7 @@ SyncFn(src, dst, o) ==
   IF ProjLevel(o)
   THEN IF o.checkSchema /\ SchemaConflict(src, dst, o) THEN [base EXCEPT !.res = "SchemaSyncConflict"]
        ELSE LET pm == IF o.docSync \in {"nosync", "copy"} THEN [doc |-> dst.pdoc, res |-> "ok", keys |-> {}]
-                      ELSE DocMerge(src.pdoc, dst.pdoc, o)
+                      ELSE DocMerge(src.pdoc, dst.pdoc, o, dst.pbak)
                 b1 == [base EXCEPT !.dst = [dst EXCEPT !.pdoc = pm.doc], !.res = pm.res, !.keys = pm.keys]
             IN IF pm.res # "ok" THEN b1
                ELSE ProjFold(SelectSeq(o.order, LAMBDA j : j \in Selected(src, o)), src, b1, o)
@@ -235,14 +244,17 @@ SyncFn(src, dst, o) ==
      R-funny   : a name that is a file on one side and a directory on the other is skipped
      R-update  : DocSync.update is dict.update: top-level keys, nested mappings replaced wholesale
      R-copy    : under DocSync.COPY the job document is a file (file rules apply, project document not synchronised)
-     R-mixed   : ByKey with a non-empty source mapping over a destination scalar raises TypeError (document rolled back) *)
+     R-mixed   : ByKey with a non-empty source mapping over a destination scalar raises TypeError (document rolled back)
+     R-prefix  : the always-excluded document file name is a re.match PREFIX pattern: 'signac_job_document.json~' is excluded too
+     R-stale   : a stale roll-back copy '<document>~' makes the document sync of a non-empty document refuse with RuntimeError,
+                 document untouched (any exception is fine for C14 as long as the document keeps its pre-sync content) *)
 RECURSIVE NoTimeDir(_)
 NoTimeDir(dir) == [f |-> [n \in DOMAIN dir.f |-> [dir.f[n] EXCEPT !.mtime = 0]], d |-> [n \in DOMAIN dir.d |-> NoTimeDir(dir.d[n])]]
 NoTimeJob(j)   == [j EXCEPT !.dir = NoTimeDir(j.dir), !.dmt = 0]
 NoTimeProj(P)  == [P EXCEPT !.jobs = [j \in DOMAIN P.jobs |-> NoTimeJob(P.jobs[j])]]
 JobOf(P, j)    == IF j \in DOMAIN P.jobs THEN P.jobs[j] ELSE NoJob
 EffDir(job, o) == IF o.docSync = "copy" THEN WithDocFile(job, o) ELSE job.dir        \* R-copy
-ExclPath(p, o) == o.exclude.on /\ \E i \in 1..Len(p) : p[i] \in o.exclude.names
+ExclPath(p, o) == (o.exclude.on /\ \E i \in 1..Len(p) : p[i] \in o.exclude.names) \/ (o.docSync # "copy" /\ p = <<BAKFN>>)   \* R-prefix
 IgnPath(p)     == \E i \in 1..Len(p) : p[i] \in IgnoreNames
 Reach(p, o)    == Len(p) = 1 \/ o.recursive
 IsOk(x)        == x.res = "ok" /\ ~x.o.dryRun
@@ -279,6 +291,11 @@ ReqSrcUntouched(x) == x.srcSame /\ x.srcAfter = x.src
 \* empty destination: the schema gate compares value sets) - the statement is about the destination, which must not change.
 ReqIdempotent(x)   == IsOk(x) => NoTimeProj(x.post2) = NoTimeProj(x.post)
 
+\* "... and touches nothing else": with a selection, jobs outside it are neither created nor modified (an EMPTY selection selects nothing)
+ReqNothingElse(x) == (IsOk(x) /\ ProjLevel(x.o) /\ x.o.selection.on) =>
+  \A j \in ((DOMAIN x.src.jobs) \cup (DOMAIN x.dst.jobs) \cup (DOMAIN x.post.jobs)) \ x.o.selection.ids :
+     (j \in DOMAIN x.post.jobs) = (j \in DOMAIN x.dst.jobs) /\ JobOf(x.post, j) = JobOf(x.dst, j)
+
 (* ---- C14 ---- *)
 \* files present on both sides, in jobs the sync looks at
 BothFiles(x) ==
@@ -307,10 +324,18 @@ Confl(s, d, root) == UNION {IF k \notin DOMAIN d \/ d[k] = s[k] THEN {}
                             ELSE IF s[k].t = "m" THEN (IF d[k].t = "m" THEN Confl(s[k].m, d[k].m, k \o ".") ELSE {})
                             ELSE {root \o k} : k \in DOMAIN s}
 RECURSIVE KeptUnsel(_, _, _, _, _)
+\* a key with differing values that is not a mapping on BOTH sides (same-type or mixed-type, either direction) keeps the destination
+\* value unless the key strategy selects it; mappings on both sides are merged key by key
 KeptUnsel(s, d, pv, root, o) ==
   pv.t = "m" /\ \A k \in (DOMAIN s) \cap (DOMAIN d) : d[k] # s[k] =>
-     IF s[k].t = "m" THEN d[k].t = "m" => (k \in DOMAIN pv.m /\ KeptUnsel(s[k].m, d[k].m, pv.m[k], k \o ".", o))
+     IF s[k].t = "m" /\ d[k].t = "m" THEN k \in DOMAIN pv.m /\ KeptUnsel(s[k].m, d[k].m, pv.m[k], k \o ".", o)
      ELSE ~KeySel(root \o k, o) => (k \in DOMAIN pv.m /\ pv.m[k] = d[k])
+\* some plain destination value (number / string / list) was replaced by a source mapping
+RECURSIVE MapOverPlain(_, _, _)
+MapOverPlain(s, d, pv) ==
+  pv.t = "m" /\ \E k \in (DOMAIN s) \cap (DOMAIN d) \cap (DOMAIN pv.m) :
+     \/ s[k].t = "m" /\ d[k].t = "s" /\ pv.m[k] # d[k]
+     \/ s[k].t = "m" /\ d[k].t = "m" /\ MapOverPlain(s[k].m, d[k].m, pv.m[k])
 ReqDocOverwriteIffKeyStrategy(x) == IsOk(x) =>
   \A L \in DocLocs(x) :
      CASE x.o.docSync = "update" -> L.p.t = "m" /\ \A k \in DOMAIN L.s.m : k \in DOMAIN L.p.m /\ L.p.m[k] = L.s.m[k]
@@ -351,12 +376,12 @@ ReqOrderConfluent(x) == x.o.parallel # "no" =>
   /\ (x.res = "ok") = (x.seqRes = "ok")
   /\ x.res = "ok" => NoTimeProj(x.post) = NoTimeProj(x.seqPost)
 
-ReqNames == CASE PROP = "C13" -> {"Superset", "FilesArrive", "DstOnlyUntouched", "SrcUntouched", "Idempotent"}
+ReqNames == CASE PROP = "C13" -> {"Superset", "FilesArrive", "DstOnlyUntouched", "SrcUntouched", "Idempotent", "NothingElse"}
               [] PROP = "C14" -> {"OverwriteIffStrategy", "ConflictLeavesFile", "DocOverwriteIffKeyStrategy", "DocRollbackExact"}
               [] PROP = "C15" -> {"DryRunFrame", "DeepByContent", "ExcludeFrame", "SelectionFrame", "OrderConfluent"}
 ReqVal(n, x) == CASE n = "Superset" -> ReqSuperset(x) [] n = "FilesArrive" -> ReqFilesArrive(x)
                   [] n = "DstOnlyUntouched" -> ReqDstOnlyUntouched(x) [] n = "SrcUntouched" -> ReqSrcUntouched(x)
-                  [] n = "Idempotent" -> ReqIdempotent(x) [] n = "OverwriteIffStrategy" -> ReqOverwriteIffStrategy(x)
+                  [] n = "Idempotent" -> ReqIdempotent(x) [] n = "NothingElse" -> ReqNothingElse(x) [] n = "OverwriteIffStrategy" -> ReqOverwriteIffStrategy(x)
                   [] n = "ConflictLeavesFile" -> ReqConflictLeavesFile(x) [] n = "DocOverwriteIffKeyStrategy" -> ReqDocOverwriteIffKeyStrategy(x)
                   [] n = "DocRollbackExact" -> ReqDocRollbackExact(x) [] n = "DryRunFrame" -> ReqDryRunFrame(x)
                   [] n = "DeepByContent" -> ReqDeepByContent(x) [] n = "ExcludeFrame" -> ReqExcludeFrame(x)
@@ -388,7 +413,11 @@ Tags(n, x) ==
          {IF NewJob(x, m.j) \/ (Len(m.p) > 1 /\ ~(SubSeq(m.p, 1, Len(m.p) - 1) \in AllDirs(JobOf(x.dst, m.j).dir, <<>>)))
           THEN "excluded-file-created-by-copytree" ELSE "excluded-file-touched:" \o Level(x) : m \in ExclTouched(x)}
     [] n \in {"OverwriteIffStrategy", "ConflictLeavesFile"} -> {x.o.strategy \o ":" \o Level(x)}
-    [] n \in {"DocOverwriteIffKeyStrategy", "DocRollbackExact"} -> {x.o.docSync \o ":" \o Level(x)}
+    [] n = "DocOverwriteIffKeyStrategy" ->
+         {IF \E L \in DocLocs(x) : MapOverPlain(L.s.m, L.d.m, L.p) THEN "mapping-replaced-plain-value:" \o x.o.docSync ELSE x.o.docSync \o ":" \o Level(x)}
+    [] n = "DocRollbackExact" ->
+         {IF x.dst.pbak \/ \E j \in DOMAIN x.dst.jobs : BAKFN \in DOMAIN x.dst.jobs[j].dir.f THEN "stale-backup:" \o Level(x) ELSE x.o.docSync \o ":" \o Level(x)}
+    [] n = "NothingElse" -> {IF SelX(x) = {} THEN "nothing-selected" ELSE "unselected-job-touched"}
     [] n = "OrderConfluent" -> {x.o.parallel}
     [] OTHER -> {Level(x)}
 
@@ -410,7 +439,7 @@ Excused(c) ==
 MaskJob(j, o)  == IF o.docSync = "copy" THEN j ELSE [j EXCEPT !.dmt = 0]
 MaskProj(P, o) == [P EXCEPT !.jobs = [j \in DOMAIN P.jobs |-> MaskJob(P.jobs[j], o)]]
 PdocStageOk(x) == ~(x.o.checkSchema /\ SchemaConflict(x.src, x.dst, x.o))
-                  /\ (x.o.docSync \in {"nosync", "copy"} \/ DocMerge(x.src.pdoc, x.dst.pdoc, x.o).res = "ok")
+                  /\ (x.o.docSync \in {"nosync", "copy"} \/ DocMerge(x.src.pdoc, x.dst.pdoc, x.o, x.dst.pbak).res = "ok")
 \* partial effects that are NOT deterministic: (i) dry-run TypeError (scandir order decides which directories exist, dict order
 \* which nested keys), (ii) a raise inside the thread pool (other workers keep going).  Specified as a relation.
 Loose(x, R) == (x.o.dryRun /\ R.res = "TypeError")
@@ -445,12 +474,12 @@ ConfWhy(x) == LET R == SyncFn(x.src, x.dst, x.o) IN
 ---------------------------------------------------------------------------
 (* 3b. generator: the bounded universe.  All randomness is one constant table RAW (evaluated once, reproducible under -seed) *)
 CONSTANT OFFSET       \* global index of this shard's first case (selects option rows)
-NR == 72
+NR == 80
 RAW == IF MODE = "file" THEN <<>> ELSE [i \in 1..NCASE |-> [k \in 1..NR |-> RandomElement(0..1048575)]]
 Ids == <<"sp1", "sp2", "sp3">>
 SPTAB == [sp1 |-> [a |-> "1"], sp2 |-> [a |-> "2"], sp3 |-> [b |-> "1"]]
-NORD == <<"f", "g", "s", DOCFN, "tags">>       \* sorted() order of every name of the universe
-KORD == <<"k1", "k2", "n">>
+NORD == <<"f", "g", "s", DOCFN, BAKFN, "tags">>       \* sorted() order of every name of the universe
+KORD == <<"k1", "k2", "n", "old">>
 DataSeq == <<[data |-> "A", size |-> 1], [data |-> "B", size |-> 1], [data |-> "CC", size |-> 2]>>
 SlotAt(k) == IF k = 0 THEN NoF ELSE [ex |-> TRUE, r |-> [data |-> DataSeq[((k - 1) % 3) + 1].data, size |-> DataSeq[((k - 1) % 3) + 1].size,
                                                       mtime |-> 1 + ((k - 1) \div 3)]]
@@ -467,23 +496,28 @@ TopNames(tags) == IF tags THEN {"f", "g", "tags"} ELSE {"f", "g"}
 Pos(n) == CASE n = "f" -> 0 [] n = "g" -> 1 [] OTHER -> 2
 NVal(k) == CASE k = 0 -> [ex |-> FALSE, v |-> EmptyDoc] [] k = 1 -> [ex |-> TRUE, v |-> Sc("1")] [] k = 2 -> [ex |-> TRUE, v |-> Sc("2")]
              [] k = 3 -> [ex |-> TRUE, v |-> Mp(<<>>)] [] k = 4 -> [ex |-> TRUE, v |-> Mp(("k1" :> Sc("1")))]
-             [] k = 5 -> [ex |-> TRUE, v |-> Mp(("k1" :> Sc("2")))] [] OTHER -> [ex |-> TRUE, v |-> Mp(("k1" :> Sc("1")) @@ ("k2" :> Sc("2")))]
+             [] k = 5 -> [ex |-> TRUE, v |-> Mp(("k1" :> Sc("2")))]
+             [] k = 7 -> [ex |-> TRUE, v |-> Mp(("k1" :> Mp(("k2" :> Sc("1")))))]      \* mapping inside the nested mapping (nested mixed-type conflicts)
+             [] k = 8 -> [ex |-> TRUE, v |-> Sc("[7, 8]")]                              \* a list is a plain value
+             [] OTHER -> [ex |-> TRUE, v |-> Mp(("k1" :> Sc("1")) @@ ("k2" :> Sc("2")))]
 KVal(k) == NVal(k % 3)
 RelVal(s, ind, r, compat) == IF ~compat THEN ind ELSE CASE r % 3 = 0 -> s [] r % 3 = 1 -> [ex |-> FALSE, v |-> EmptyDoc] [] OTHER -> ind
 MkDoc(a, b, n) == Mp([k \in {k \in {"k1", "k2", "n"} : (CASE k = "k1" -> a [] k = "k2" -> b [] OTHER -> n).ex}
                        |-> (CASE k = "k1" -> a [] k = "k2" -> b [] OTHER -> n).v])
 MkJob(dir, doc, r) == [sp |-> TRUE, dir |-> dir, doc |-> doc, dex |-> doc # EmptyDoc, dmt |-> IF doc # EmptyDoc THEN 1 + (r % 2) ELSE 0]
 \* a (source job, destination job) pair from 20 random numbers v[b+1 .. b+20]
-JobPair(v, b, compat, tags) ==
+BakRec == [data |-> OLDTXT, size |-> Len(OLDTXT), mtime |-> 1]
+AddBak(dir, yes) == IF yes THEN [dir EXCEPT !.f = Over((BAKFN :> BakRec), dir.f)] ELSE dir
+JobPair(v, b, compat, tags, sbak, dbak) ==
   LET stop == [n \in TopNames(tags) |-> IF n = "tags" /\ v[b + 3] % 2 = 0 THEN NoF ELSE SlotAt(v[b + 1 + Pos(n)] % 7)]
       dtop == [n \in TopNames(tags) |-> RelSlot(stop[n], v[b + 4 + Pos(n)], compat)]
       ssf == SlotAt(v[b + 7] % 7)    dsf == RelSlot(ssf, v[b + 8], compat)
-      sa == KVal(v[b + 11])  sb == KVal(v[b + 12])  sn == NVal(v[b + 13] % 7)
+      sa == KVal(v[b + 11])  sb == KVal(v[b + 12])  sn == NVal(v[b + 13] % 9)
       da == RelVal(sa, KVal(v[b + 14]), v[b + 14] \div 8, compat)
       db == RelVal(sb, KVal(v[b + 15]), v[b + 15] \div 8, compat)
-      dnn == RelVal(sn, NVal(v[b + 16] % 7), v[b + 16] \div 8, compat)
-  IN [s |-> MkJob(MkDir(stop, v[b + 9] % 2 = 1, ssf), MkDoc(sa, sb, sn), v[b + 17]),
-      d |-> MkJob(MkDir(dtop, v[b + 10] % 3 > 0, dsf), MkDoc(da, db, dnn), v[b + 18])]
+      dnn == RelVal(sn, NVal(v[b + 16] % 9), v[b + 16] \div 8, compat)
+  IN [s |-> MkJob(AddBak(MkDir(stop, v[b + 9] % 2 = 1, ssf), sbak), MkDoc(sa, sb, sn), v[b + 17]),
+      d |-> MkJob(AddBak(MkDir(dtop, v[b + 10] % 3 > 0, dsf), dbak), MkDoc(da, db, dnn), v[b + 18])]
 SubsetAt(k) == {Ids[i] : i \in {i \in 1..3 : (k \div (IF i = 1 THEN 1 ELSE IF i = 2 THEN 2 ELSE 4)) % 2 = 1}}
 PermSeq == SetToSeq(SetToSeqs({"sp1", "sp2", "sp3"}))
 CustomSeq == <<{}, {<<"f">>}, {<<"g">>, <<"s", "f">>}, {<<"f">>, <<"g">>, <<"s", "f">>, <<DOCFN>>}, {<<"s", "f">>, <<DOCFN>>}>>
@@ -494,13 +528,13 @@ AllStrat == {"none", "always", "never", "update", "custom"}
 AllDoc   == {"bykey", "bykeyfn", "bykeyre", "update", "nosync", "copy"}
 AllEntry == {"Project.sync", "sync_projects", "Job.sync", "sync_jobs"}
 OptDom == CASE PROP = "C13" -> [strategy |-> AllStrat, docSync |-> AllDoc, recursive |-> BOOLEAN, exclude |-> {"off", "f", "g"},
-                                selection |-> {"off", "none", "sp1", "sp13", "sp2"}, checkSchema |-> BOOLEAN, deep |-> {FALSE},
+                                selection |-> {"off", "none", "ghost", "sp1", "sp13", "sp2"}, checkSchema |-> BOOLEAN, deep |-> {FALSE},
                                 dryRun |-> {FALSE}, parallel |-> {"no"}, entry |-> AllEntry]
             [] PROP = "C14" -> [strategy |-> AllStrat, docSync |-> AllDoc, recursive |-> BOOLEAN, exclude |-> {"off", "g"},
                                 selection |-> {"off", "sp13"}, checkSchema |-> {FALSE}, deep |-> {FALSE},
                                 dryRun |-> {FALSE}, parallel |-> {"no"}, entry |-> AllEntry]
             [] PROP = "C15" -> [strategy |-> AllStrat, docSync |-> {"bykey", "bykeyfn", "update", "nosync", "copy"}, recursive |-> BOOLEAN,
-                                exclude |-> {"off", "f", "g"}, selection |-> {"off", "none", "sp1", "sp13", "sp2"}, checkSchema |-> {FALSE},
+                                exclude |-> {"off", "f", "g"}, selection |-> {"off", "none", "ghost", "sp1", "sp13", "sp2"}, checkSchema |-> {FALSE},
                                 deep |-> BOOLEAN, dryRun |-> BOOLEAN, parallel |-> {"no", "two", "all"}, entry |-> AllEntry]
 Fields == <<"strategy", "docSync", "recursive", "exclude", "selection", "checkSchema", "deep", "dryRun", "parallel", "entry">>
 FieldSet == ToSet(Fields)
@@ -522,7 +556,9 @@ MkOpt(row, v, src, dst) ==
       exclude |-> [on |-> row.exclude # "off", names |-> IF row.exclude = "off" THEN {} ELSE {row.exclude}],
       selection |-> [on |-> row.selection # "off",
                      ids |-> CASE row.selection = "sp1" -> {"sp1"} [] row.selection = "sp13" -> {"sp1", "sp3"}
-                               [] row.selection = "sp2" -> {"sp2"} [] OTHER -> {}],
+                               [] row.selection = "sp2" -> {"sp2"}
+                               [] row.selection = "ghost" -> {"sp9"}        \* an id that exists nowhere
+                               [] OTHER -> {}],                             \* "none": the empty selection
       checkSchema |-> row.checkSchema, deep |-> row.deep, dryRun |-> row.dryRun, parallel |-> row.parallel, entry |-> row.entry,
       jid |-> pool[(v[63] % Len(pool)) + 1], order |-> PermSeq[(v[64] % Len(PermSeq)) + 1], nord |-> NORD, kord |-> KORD, sps |-> SPTAB]
 GenCase(i) ==
@@ -534,13 +570,16 @@ GenCase(i) ==
       tags == PROP = "C13" /\ v[2] % 4 = 0
       sids == SubsetAt(IF v[3] % 3 = 0 THEN 7 ELSE (v[3] \div 3) % 8)
       dids == IF v[4] % 2 = 0 THEN sids ELSE SubsetAt((v[4] \div 2) % 8)
-      jp == [k \in 1..3 |-> JobPair(v, 5 + 18 * (k - 1), compat, tags)]          \* v[6..59]
+      \* stale roll-back copies: frequent in the destination for C14 (DocRollbackExact), occasional elsewhere and in the source
+      bakmod == IF PROP = "C14" THEN 4 ELSE 12
+      jp == [k \in 1..3 |-> JobPair(v, 5 + 18 * (k - 1), compat, tags, v[71 + 2 * k] % 15 = 0, v[72 + 2 * k] % bakmod = 0)]          \* v[6..59]
       idx(j) == CHOOSE k \in 1..3 : Ids[k] = j
-      pa == KVal(v[65])  pb == KVal(v[66])  pn == NVal(v[67] % 7)
-      src == [jobs |-> [j \in sids |-> jp[idx(j)].s], pdoc |-> MkDoc(pa, pb, pn)]
+      pa == KVal(v[65])  pb == KVal(v[66])  pn == NVal(v[67] % 9)
+      src == [jobs |-> [j \in sids |-> jp[idx(j)].s], pdoc |-> MkDoc(pa, pb, pn), pbak |-> FALSE]
       dst == [jobs |-> [j \in dids |-> jp[idx(j)].d],
               pdoc |-> MkDoc(RelVal(pa, KVal(v[68]), v[68] \div 8, compat), RelVal(pb, KVal(v[69]), v[69] \div 8, compat),
-                             RelVal(pn, NVal(v[70] % 7), v[70] \div 8, compat))]
+                             RelVal(pn, NVal(v[70] % 9), v[70] \div 8, compat)),
+              pbak |-> v[79] % bakmod = 0]
   IN [src |-> src, dst |-> dst, o |-> MkOpt(row, v, src, dst)]
 
 \* what a case exercises (vacuity guard and distinct-case counting in the harness)
@@ -569,6 +608,13 @@ Features(c, x) ==
      \cup T(\E j \in DOMAIN c.dst.jobs : \E f \in AllFiles(c.dst.jobs[j].dir, <<>>) : ~FAt(JobOf(c.src, j).dir, f.p).ex, "dst-only-file")
      \cup T(c.o.exclude.on /\ \E j \in sel : \E f \in AllFiles(c.src.jobs[j].dir, <<>>) : ExclPath(f.p, c.o), "excluded-src-file")
      \cup T(ProjLevel(c.o) /\ c.o.selection.on /\ \E j \in DOMAIN c.src.jobs : j \notin c.o.selection.ids, "unselected-src-job")
+     \cup T(\E L \in dl : \E k \in (DOMAIN L.s.m) \cap (DOMAIN L.d.m) : L.s.m[k].t = "m" /\ L.s.m[k].m # <<>> /\ L.d.m[k].t = "s", "doc-map-over-plain")
+     \cup T(\E L \in dl : \E k \in (DOMAIN L.s.m) \cap (DOMAIN L.d.m) : L.s.m[k].t = "m" /\ L.d.m[k].t = "m" /\
+               \E q \in (DOMAIN L.s.m[k].m) \cap (DOMAIN L.d.m[k].m) : L.s.m[k].m[q].t # L.d.m[k].m[q].t, "doc-mixed-type-nested")
+     \cup T(c.dst.pbak \/ \E j \in DOMAIN c.dst.jobs : BAKFN \in DOMAIN c.dst.jobs[j].dir.f, "stale-backup")
+     \cup T(\E L \in dl : Confl(L.s.m, L.d.m, "") # {} /\ L.d # EmptyDoc /\
+               (IF L.w = "project" THEN c.dst.pbak ELSE BAKFN \in DOMAIN c.dst.jobs[L.w].dir.f), "stale-backup-at-doc-conflict")
+     \cup T(ProjLevel(c.o) /\ c.o.selection.on /\ DOMAIN c.src.jobs # {} /\ sel = {}, "empty-selection")
      \cup T(UsesIgnored(c), "dircmp-ignored-name")
      \cup T(Cardinality(sel) > 1, "multi-job")
 
@@ -578,7 +624,7 @@ VARIABLES c,      \* case / record index
           r,      \* gen: [viol, excused, feat, res] of the case (evaluated once per state); file: verdict of the record
           pend, cur, sres      \* steps mode: jobs not yet processed, destination so far, result so far
 vars == <<c, r, pend, cur, sres>>
-NoProj == [jobs |-> <<>>, pdoc |-> EmptyDoc]
+NoProj == [jobs |-> <<>>, pdoc |-> EmptyDoc, pbak |-> FALSE]
 NoR == [viol |-> {}, excused |-> {}, feat |-> {}, res |-> "", why |-> "", tags |-> {}]
 
 (* MODE = "file" (SyncTrace): SYNC_IN is NDJSON, one recorded real execution per line:
@@ -596,7 +642,7 @@ FixDir(d) == [f |-> [n \in DOMAIN d.f |-> d.f[n]], d |-> [n \in DOMAIN d.d |-> F
 RECURSIVE FixDV(_)
 FixDV(v) == [t |-> v.t, s |-> v.s, m |-> [k \in DOMAIN v.m |-> FixDV(v.m[k])]]
 FixJob(j) == [sp |-> j.sp, dir |-> FixDir(j.dir), doc |-> FixDV(j.doc), dex |-> j.dex, dmt |-> j.dmt]
-FixProj(P) == [jobs |-> [j \in DOMAIN P.jobs |-> FixJob(P.jobs[j])], pdoc |-> FixDV(P.pdoc)]
+FixProj(P) == [jobs |-> [j \in DOMAIN P.jobs |-> FixJob(P.jobs[j])], pdoc |-> FixDV(P.pdoc), pbak |-> P.pbak]
 FixO(o) == [o EXCEPT !.custom = ToSet(o.custom), !.keysel = ToSet(o.keysel), !.exclude = [on |-> o.exclude.on, names |-> ToSet(o.exclude.names)],
                      !.selection = [on |-> o.selection.on, ids |-> ToSet(o.selection.ids)],
                      !.sps = [i \in DOMAIN o.sps |-> [k \in DOMAIN o.sps[i] |-> o.sps[i][k]]]]
@@ -641,6 +687,7 @@ FilesArrive == Holds("FilesArrive")          PureFilesArrive == Pure("FilesArriv
 DstOnlyUntouched == Holds("DstOnlyUntouched") PureDstOnlyUntouched == Pure("DstOnlyUntouched")
 SrcUntouched == Holds("SrcUntouched")        PureSrcUntouched == Pure("SrcUntouched")
 Idempotent == Holds("Idempotent")            PureIdempotent == Pure("Idempotent")
+NothingElse == Holds("NothingElse")          PureNothingElse == Pure("NothingElse")
 OverwriteIffStrategy == Holds("OverwriteIffStrategy")   PureOverwriteIffStrategy == Pure("OverwriteIffStrategy")
 ConflictLeavesFile == Holds("ConflictLeavesFile")       PureConflictLeavesFile == Pure("ConflictLeavesFile")
 DocOverwriteIffKeyStrategy == Holds("DocOverwriteIffKeyStrategy")  PureDocOverwriteIffKeyStrategy == Pure("DocOverwriteIffKeyStrategy")
